@@ -31,6 +31,10 @@ RULE = ("Hypothesis: CP (order 2-5, sides 1-4, rank 1-4, weights none/ones/posit
         "/ masked tensor / wrapper shape+rank / factor-based norm against it (rel 1e-10 x magnitude bound of the "
         "contraction; norm^2 with the cancellation-aware scale sum|Gram terms|). Rejection: one structural corruption per "
         "case; every validating entry point (wrapper constructor, _validate_*, converters that validate) must raise. "
+        "Histories: one wrapper object (CPTensor, TuckerTensor, TTTensor, TRTensor, TTMatrix, Parafac2Tensor), 2-5 drawn "
+        "operations (views, in-place / copying mode products, normalize, component assignments); after every operation all "
+        "views must agree with the dense reference of the object's current components and with a model of the history "
+        "(non-trivial: at least one mutation). "
         "Non-trivial: order >= 3 or rank >= 2 (reject cases: always); distinct = distinct case hash.")
 ASSUMPTIONS = ["NumPy einsum (sublist form), tensordot, trace, matmul, qr are correct",
                "Hypothesis generates what its strategies describe",
@@ -814,6 +818,523 @@ def o_p2_bad(case):
             ([f"factor={case['factor']}"] if case["kind"] == "scaled" else [])}
 
 
+
+# ============================================================================
+# Histories on wrapper objects: one object, a generated sequence of 2-5 operations (views and
+# mutations); after EVERY operation all views must agree with the dense reference built from the
+# object's CURRENT attributes, and that dense tensor must equal the harness-side model of the history.
+# ============================================================================
+VIEW_OPS = ["norm", "to_tensor", "to_vec", "to_unfolded"]
+
+
+def _harr(draw, shape):
+    return draw(gen.arr(list(shape), kinds=KINDS))
+
+
+def _draw_mode_dot(draw, cur, allow_method=True):
+    """mode-product op on the current shape `cur` (edited in place)"""
+    k = draw(st.integers(0, len(cur) - 1))
+    kinds = ["matrix", "matrix", "vector_keep"] + (["vector_contract"] if len(cur) >= 3 else [])
+    operand = draw(st.sampled_from(kinds))
+    op = {"op": "mode_dot", "mode": k, "operand": operand,
+          "how": draw(st.sampled_from(["function", "method"] if allow_method else ["function"])),
+          "copy": draw(st.sampled_from([False, False, None, True]))}
+    if operand == "matrix":
+        J = draw(st.integers(1, 3))
+        op["m"] = _harr(draw, [J, cur[k]])
+        cur[k] = J
+    else:
+        op["m"] = _harr(draw, [cur[k]])
+        if operand == "vector_keep":
+            cur[k] = 1
+        else:
+            cur.pop(k)
+    return op
+
+
+def _apply_operand_to_factor(op, f):
+    m = gen.dec(op["m"])
+    if op["operand"] == "matrix":
+        return m @ f
+    return (m @ f).reshape(1, -1)
+
+
+def _mode_dot_kwargs(op):
+    kw = {}
+    if op["operand"] == "vector_keep":
+        kw["keep_dim"] = True
+    if op["copy"] is not None:
+        kw["copy"] = op["copy"]
+    return kw
+
+
+def _hist_labels(case):
+    ops = [o["op"] for o in case["ops"]]
+    muts = [o for o in ops if o not in VIEW_OPS]
+    labs = [f"n_ops={len(ops)}", f"mutations={min(len(muts), 3)}"] + sorted({f"op={o}" for o in muts})
+    for o in case["ops"]:
+        if o["op"] == "mode_dot":
+            labs.append(f"mode_dot={o['operand']}/{o['how']}/copy={o['copy']}")
+    return {"nontrivial": bool(muts), "labels": sorted(set(labs))}
+
+
+def _norm_close(got, dense, S, clause):
+    g = as_array(got, clause)
+    check(g.shape == (), clause + "/scalar", lambda: f"shape {g.shape}")
+    close(g * g, np.asarray(float(np.sum(np.abs(dense) ** 2))), clause, rel=1e-9, scale=S)
+
+
+# ------------------------------------------------------------------ CP
+@st.composite
+def _cp_hist_case(draw):
+    shape = draw(X.shapes(2, 4, 1, 3))
+    R = draw(st.integers(1, 3))
+    c = {"first": draw(first), "shape": shape, "rank": R, "cp": draw(gen.cp_factors(shape, R, kinds=KINDS)),
+         "norm_first": draw(st.booleans())}
+    cur = list(shape)
+    ops = []
+    for _ in range(draw(st.integers(2, 5))):
+        kind = draw(st.sampled_from(VIEW_OPS + ["norm", "mode_dot", "mode_dot", "mode_dot", "normalize", "set_factor",
+                                                "set_factor", "set_weights", "set_factors_list"]))
+        if kind == "mode_dot":
+            ops.append(_draw_mode_dot(draw, cur))
+        elif kind == "to_unfolded":
+            ops.append({"op": kind, "mode": draw(st.integers(0, len(cur) - 1))})
+        elif kind == "normalize":
+            ops.append({"op": kind, "inplace": draw(st.sampled_from([True, True, None, False]))})
+        elif kind in ("set_factor", "set_factors_list"):
+            k = draw(st.integers(0, len(cur) - 1))
+            ops.append({"op": kind, "k": k, "a": _harr(draw, [cur[k], R]), "via": draw(st.sampled_from(["list", "setitem"]))})
+        elif kind == "set_weights":
+            ops.append({"op": kind, "a": {"s": [R], "d": [v / 4 for v in draw(st.lists(st.integers(-8, 8), min_size=R, max_size=R))]},
+                        "via": draw(st.sampled_from(["attr", "setitem"]))})
+        else:
+            ops.append({"op": kind})
+    c["ops"] = ops
+    return c
+
+
+def _cp_check_views(obj, model, tag, bk, norm_first):
+    w_m, fs_m = model
+    R = fs_m[0].shape[1]
+    shape = tuple(f.shape[0] for f in fs_m)
+    dense_m = ref.cp_dense(w_m, fs_m)
+    scale_m = R * X.amax(w_m) * float(np.prod([X.amax(f) for f in fs_m]))
+    pre = f"cp_history/{{}}/{tag}@{bk}"
+    # ---- dense tensor of the object's CURRENT attributes
+    w_a = as_array(obj.weights, pre.format("state"))
+    fs_a = [as_array(f, pre.format("state")) for f in obj.factors]
+    check(w_a.shape == (R,) and len(fs_a) == len(shape) and all(f.ndim == 2 and f.shape[1] == R for f in fs_a),
+          pre.format("state"), lambda: f"weights {w_a.shape}, factors {[f.shape for f in fs_a]} for model shape {shape} rank {R}")
+    dense = ref.cp_dense(w_a, fs_a)
+    close(dense, dense_m, pre.format("state"), rel=1e-9, scale=scale_m)
+    scale = max(R * X.amax(w_a) * float(np.prod([X.amax(f) for f in fs_a])), scale_m)
+    gram = np.ones((R, R))
+    for f in fs_a:
+        gram = gram * (f.T @ f)
+    S = max(float(np.sum(np.abs(gram * np.outer(w_a, w_a)))), float(np.sum(dense ** 2)))
+
+    def norms():
+        _norm_close(obj.norm(), dense, S, pre.format("norm()"))
+        _norm_close(tl.cp_norm(obj), dense, S, pre.format("cp_norm"))
+    if norm_first:
+        norms()
+    check(tuple(obj.shape) == shape, pre.format("shape"), lambda: f"{obj.shape} != {shape}")
+    check(obj.rank == R, pre.format("rank"), lambda: f"{obj.rank} != {R}")
+    close(obj.to_tensor(), dense, pre.format("to_tensor"), rel=REL, scale=scale)
+    close(tl.cp_to_tensor(obj), dense, pre.format("cp_to_tensor"), rel=REL, scale=scale)
+    close(obj.to_vec(), dense.reshape(-1), pre.format("to_vec"), rel=REL, scale=scale)
+    for m in range(dense.ndim):
+        close(obj.to_unfolded(m), ref.unfold_fast(dense, m), pre.format("to_unfolded"), rel=REL, scale=scale)
+    if not norm_first:
+        norms()
+
+
+def _cp_run_history(case, bk):
+    w, fs = gen.dec_cp(case["cp"])
+    R = case["rank"]
+    model = [np.ones(R) if w is None else w.copy(), [f.copy() for f in fs]]
+    obj = CPTensor((w, fs))
+    nf = case["norm_first"]
+    _cp_check_views(obj, model, "init", bk, nf)
+    for op in case["ops"]:
+        kind = op["op"]
+        if kind == "norm":
+            obj.norm()
+        elif kind == "to_tensor":
+            obj.to_tensor()
+        elif kind == "to_vec":
+            obj.to_vec()
+        elif kind == "to_unfolded":
+            obj.to_unfolded(op["mode"])
+        elif kind == "mode_dot":
+            k = op["mode"]
+            kw = _mode_dot_kwargs(op)
+            copy_eff = op["copy"] if op["copy"] is not None else (op["how"] == "method")   # method default True, function False
+            old_model = [model[0].copy(), [f.copy() for f in model[1]]]
+            if op["how"] == "method":
+                res = obj.mode_dot(gen.dec(op["m"]), k, **kw)
+            else:
+                res = tl.cp_mode_dot(obj, gen.dec(op["m"]), k, **kw)
+            if op["operand"] == "vector_contract":
+                col = gen.dec(op["m"]) @ model[1][k]
+                model[1].pop(k)
+                model[0] = model[0] * col
+            else:
+                model[1][k] = _apply_operand_to_factor(op, model[1][k])
+            check(isinstance(res, CPTensor), f"cp_history/mode_dot/returns_CPTensor@{bk}", lambda: type(res).__name__)
+            if copy_eff:
+                check(res is not obj, f"cp_history/mode_dot(copy=True)/new_object@{bk}")
+                _cp_check_views(obj, old_model, "original_after:mode_dot(copy=True)", bk, nf)
+            obj = res     # with copy=False the *returned* object represents the product
+        elif kind == "normalize":
+            if op["inplace"] is None:
+                res = obj.normalize()
+            else:
+                res = obj.normalize(inplace=op["inplace"])
+            if op["inplace"] is False:
+                check(isinstance(res, CPTensor) and res is not obj, f"cp_history/normalize(inplace=False)/returns_copy@{bk}",
+                      lambda: type(res).__name__)
+                _cp_check_views(obj, model, "original_after:normalize(inplace=False)", bk, nf)
+                obj = res
+        elif kind == "set_factor":
+            a = gen.dec(op["a"])
+            if op["via"] == "list":
+                obj.factors[op["k"]] = a
+            else:
+                lst = list(obj.factors)
+                lst[op["k"]] = a
+                obj[1] = lst
+            model[1][op["k"]] = a.copy()
+        elif kind == "set_factors_list":
+            a = gen.dec(op["a"])
+            lst = [np.array(f) for f in obj.factors]
+            lst[op["k"]] = a
+            obj.factors = lst
+            model[1][op["k"]] = a.copy()
+        elif kind == "set_weights":
+            a = gen.dec(op["a"])
+            if op["via"] == "attr":
+                obj.weights = a
+            else:
+                obj[0] = a
+            model[0] = a.copy()
+        tag = "after:" + kind      # the variant (operand / method vs function / copy flag) is in the labels and the replay
+        _cp_check_views(obj, model, tag, bk, nf)
+        if kind in ("normalize", "mode_dot"):
+            # same tensor (just checked) but the library may distribute it differently over the components
+            # (normalisation; a contracted vector is absorbed into a neighbouring factor): later component
+            # assignments act on the object's components, so the model takes them over
+            model = [np.array(obj.weights), [np.array(f) for f in obj.factors]]
+
+
+def o_cp_hist(case):
+    for bk in _order(case):
+        with tenalg_backend(bk):
+            _cp_run_history(case, bk)
+    return _hist_labels(case)
+
+
+# ------------------------------------------------------------------ Tucker
+@st.composite
+def _tucker_hist_case(draw):
+    shape = draw(X.shapes(2, 4, 1, 3))
+    ranks = [draw(st.integers(1, 3)) for _ in shape]
+    c = {"first": draw(first), "shape": shape, "ranks": ranks, "tk": draw(gen.tucker_factors(shape, ranks, kinds=KINDS))}
+    cur, rk = list(shape), list(ranks)
+    ops = []
+    for _ in range(draw(st.integers(2, 5))):
+        kind = draw(st.sampled_from(VIEW_OPS + ["mode_dot", "mode_dot", "mode_dot", "normalize", "set_factor", "set_factor", "set_core"]))
+        if kind == "mode_dot":
+            op = _draw_mode_dot(draw, cur)
+            if op["operand"] == "vector_contract":
+                rk.pop(op["mode"])
+            ops.append(op)
+        elif kind == "to_unfolded":
+            ops.append({"op": kind, "mode": draw(st.integers(0, len(cur) - 1))})
+        elif kind == "set_factor":
+            k = draw(st.integers(0, len(cur) - 1))
+            ops.append({"op": kind, "k": k, "a": _harr(draw, [cur[k], rk[k]]), "via": draw(st.sampled_from(["list", "setitem"]))})
+        elif kind == "set_core":
+            ops.append({"op": kind, "a": _harr(draw, rk), "via": draw(st.sampled_from(["attr", "setitem"]))})
+        else:
+            ops.append({"op": kind})
+    c["ops"] = ops
+    return c
+
+
+def _tucker_check_views(obj, model, tag, bk):
+    core_m, fs_m = model
+    shape = tuple(f.shape[0] for f in fs_m)
+    ranks = tuple(core_m.shape)
+    dense_m = ref.tucker_dense(core_m, fs_m)
+    scale_m = _tucker_scale(core_m, fs_m, ranks)
+    pre = f"tucker_history/{{}}/{tag}@{bk}"
+    core_a = as_array(obj.core, pre.format("state"))
+    fs_a = [as_array(f, pre.format("state")) for f in obj.factors]
+    check(core_a.shape == ranks and len(fs_a) == len(ranks) and all(f.ndim == 2 and f.shape[1] == r for f, r in zip(fs_a, ranks)),
+          pre.format("state"), lambda: f"core {core_a.shape}, factors {[f.shape for f in fs_a]} for model ranks {ranks} shape {shape}")
+    dense = ref.tucker_dense(core_a, fs_a)
+    close(dense, dense_m, pre.format("state"), rel=1e-9, scale=scale_m)
+    scale = max(_tucker_scale(core_a, fs_a, ranks), scale_m)
+    check(tuple(obj.shape) == shape, pre.format("shape"), lambda: f"{obj.shape} != {shape}")
+    check(tuple(obj.rank) == ranks, pre.format("rank"), lambda: f"{obj.rank} != {ranks}")
+    close(obj.to_tensor(), dense, pre.format("to_tensor"), rel=REL, scale=scale)
+    close(obj.to_vec(), dense.reshape(-1), pre.format("to_vec"), rel=REL, scale=scale)
+    for m in range(dense.ndim):
+        close(obj.to_unfolded(m), ref.unfold_fast(dense, m), pre.format("to_unfolded"), rel=REL, scale=scale)
+    close(as_array(obj.norm(), pre.format("norm()")), np.asarray(np.sqrt(np.sum(dense ** 2))), pre.format("norm()"), rel=1e-9,
+          scale=scale * np.sqrt(dense.size))
+
+
+def _tucker_run_history(case, bk):
+    core, fs = _tucker_parts(case)
+    model = [core.copy(), [f.copy() for f in fs]]
+    obj = TuckerTensor((core, fs))
+    _tucker_check_views(obj, model, "init", bk)
+    for op in case["ops"]:
+        kind = op["op"]
+        if kind == "norm":
+            obj.norm()
+        elif kind == "to_tensor":
+            obj.to_tensor()
+        elif kind == "to_vec":
+            obj.to_vec()
+        elif kind == "to_unfolded":
+            obj.to_unfolded(op["mode"])
+        elif kind == "mode_dot":
+            k = op["mode"]
+            kw = _mode_dot_kwargs(op)
+            copy_eff = bool(op["copy"])           # both the method and the function default to copy=False
+            old_model = [model[0].copy(), [f.copy() for f in model[1]]]
+            if op["how"] == "method":
+                res = obj.mode_dot(gen.dec(op["m"]), k, **kw)
+            else:
+                res = tl.tucker_mode_dot(obj, gen.dec(op["m"]), k, **kw)
+            if op["operand"] == "vector_contract":
+                col = gen.dec(op["m"]) @ model[1][k]
+                model[0] = ref.mode_dot_vector(model[0], col, k)
+                model[1].pop(k)
+            else:
+                model[1][k] = _apply_operand_to_factor(op, model[1][k])
+            check(isinstance(res, TuckerTensor), f"tucker_history/mode_dot/returns_TuckerTensor@{bk}", lambda: type(res).__name__)
+            if copy_eff:
+                check(res is not obj, f"tucker_history/mode_dot(copy=True)/new_object@{bk}")
+                _tucker_check_views(obj, old_model, "original_after:mode_dot(copy=True)", bk)
+            # copy=False: only the *returned* object is documented to represent the product
+            obj = res
+        elif kind == "normalize":
+            obj.normalize()
+        elif kind == "set_factor":
+            a = gen.dec(op["a"])
+            if op["via"] == "list":
+                obj.factors[op["k"]] = a
+            else:
+                lst = list(obj.factors)
+                lst[op["k"]] = a
+                obj[1] = lst
+            model[1][op["k"]] = a.copy()
+        elif kind == "set_core":
+            a = gen.dec(op["a"])
+            if op["via"] == "attr":
+                obj.core = a
+            else:
+                obj[0] = a
+            model[0] = a.copy()
+        tag = "after:" + kind      # the variant (operand / method vs function / copy flag) is in the labels and the replay
+        _tucker_check_views(obj, model, tag, bk)
+        if kind in ("normalize", "mode_dot"):
+            model = [np.array(obj.core), [np.array(f) for f in obj.factors]]
+
+
+def o_tucker_hist(case):
+    for bk in _order(case):
+        with tenalg_backend(bk):
+            _tucker_run_history(case, bk)
+    return _hist_labels(case)
+
+
+# ------------------------------------------------------------------ TT / TR / TT-matrix
+@st.composite
+def _chain_hist_case(draw, kind):
+    c = draw(_chain_case(kind))
+    n = len(c["shape"])
+    ops = []
+    for _ in range(draw(st.integers(2, 5))):
+        k = draw(st.sampled_from(VIEW_OPS + ["set_core", "set_core", "set_core", "set_cores_list"]))
+        if k in ("set_core", "set_cores_list"):
+            i = draw(st.integers(0, n - 1))
+            ops.append({"op": k, "i": i, "a": draw(gen.arr(list(c["cores"][i]["s"]), kinds=KINDS)),
+                        "via": draw(st.sampled_from(["setitem", "list"]))})
+        elif k == "to_unfolded":
+            ops.append({"op": k, "mode": draw(st.integers(0, (2 * n if kind == "ttm" else n) - 1))})
+        else:
+            ops.append({"op": k})
+    c["ops"] = ops
+    c["cplx"] = False
+    c["cores"] = [dict(e) for e in c["cores"]]
+    for e in c["cores"]:         # histories are real-valued
+        e.pop("di", None)
+        if e.get("k") == "cnormal":
+            e["k"] = "normal"
+    return c
+
+
+def _chain_dense(kind, cores):
+    return {"tt": ref.tt_dense, "tr": ref.tr_dense, "ttm": ref.ttm_dense}[kind](cores)
+
+
+def _chain_check_views(kind, obj, model, case, tag, bk):
+    name = _WRAP[kind].__name__
+    pre = f"{kind}_history/{{}}/{tag}@{bk}"
+    shape = tuple(case["shape"]) + (tuple(case["out_shape"]) if kind == "ttm" else ())
+    ranks = tuple(case["ranks"])
+    dense_m = _chain_dense(kind, model)
+    scale_m = float(np.prod([X.amax(c) * c.shape[0] for c in model]))
+    cores_a = [as_array(c, pre.format("state")) for c in obj.factors]
+    check(len(cores_a) == len(model) and all(a.shape == m.shape for a, m in zip(cores_a, model)), pre.format("state"),
+          lambda: f"core shapes {[a.shape for a in cores_a]} vs model {[m.shape for m in model]}")
+    dense = _chain_dense(kind, cores_a)
+    close(dense, dense_m, pre.format("state"), rel=1e-9, scale=scale_m)
+    scale = scale_m
+    check(tuple(obj.shape) == shape, pre.format("shape"), lambda: f"{obj.shape} != {shape}")
+    check(tuple(obj.rank) == ranks, pre.format("rank"), lambda: f"{obj.rank} != {ranks}")
+    check(len(obj) == len(model) and all(np.array_equal(np.asarray(a), m) for a, m in zip(obj, model)), pre.format("iteration"))
+    close(obj.to_tensor(), dense, pre.format("to_tensor"), rel=REL, scale=scale)
+    close(_TO_TENSOR[kind](obj), dense, pre.format(f"{kind}_to_tensor"), rel=REL, scale=scale)
+    close(obj.to_vec(), dense.reshape(-1), pre.format("to_vec"), rel=REL, scale=scale)
+    for m in range(dense.ndim):
+        close(obj.to_unfolding(m), ref.unfold_fast(dense, m), pre.format("to_unfolding"), rel=REL, scale=scale)
+    if kind == "ttm":
+        close(obj.to_matrix(), dense.reshape(gen.prod(case["shape"]), gen.prod(case["out_shape"])), pre.format("to_matrix"),
+              rel=REL, scale=scale)
+    close(as_array(obj.norm(), pre.format("norm()")), np.asarray(np.sqrt(np.sum(dense ** 2))), pre.format("norm()"), rel=1e-9,
+          scale=scale * np.sqrt(dense.size))
+
+
+def o_chain_hist(case):
+    kind = case["kind"]
+    for bk in _order(case):
+        with tenalg_backend(bk):
+            cores = [gen.dec(c) for c in case["cores"]]
+            model = [c.copy() for c in cores]
+            obj = _WRAP[kind](cores)
+            _chain_check_views(kind, obj, model, case, "init", bk)
+            for op in case["ops"]:
+                k = op["op"]
+                if k == "norm":
+                    obj.norm()
+                elif k == "to_tensor":
+                    obj.to_tensor()
+                elif k == "to_vec":
+                    obj.to_vec()
+                elif k == "to_unfolded":
+                    obj.to_unfolding(op["mode"])
+                elif k == "set_core":
+                    a = gen.dec(op["a"])
+                    if op["via"] == "setitem":
+                        obj[op["i"]] = a
+                    else:
+                        obj.factors[op["i"]] = a
+                    model[op["i"]] = a.copy()
+                elif k == "set_cores_list":
+                    a = gen.dec(op["a"])
+                    lst = [np.array(c) for c in obj.factors]
+                    lst[op["i"]] = a
+                    obj.factors = lst
+                    model[op["i"]] = a.copy()
+                _chain_check_views(kind, obj, model, case, "after:" + k, bk)
+    return _hist_labels(case)
+
+
+# ------------------------------------------------------------------ PARAFAC2
+@st.composite
+def _p2_hist_case(draw):
+    c = draw(_p2_case())
+    I, R, K = c["I"], c["R"], c["K"]
+    ops = []
+    for _ in range(draw(st.integers(2, 5))):
+        k = draw(st.sampled_from(VIEW_OPS + ["set_weights", "set_factor", "set_factor", "set_projection", "set_projection"]))
+        if k == "set_weights":
+            ops.append({"op": k, "a": {"s": [R], "d": [v / 4 for v in draw(st.lists(st.integers(-8, 8), min_size=R, max_size=R))]}})
+        elif k == "set_factor":
+            which = draw(st.integers(0, 2))
+            ops.append({"op": k, "k": which, "a": _harr(draw, [[I, R], [R, R], [K, R]][which])})
+        elif k == "set_projection":
+            ops.append({"op": k, "i": draw(st.integers(0, I - 1)), "seed": draw(gen.seeds)})
+        elif k == "to_unfolded":
+            ops.append({"op": k, "mode": draw(st.integers(0, 2))})
+        else:
+            ops.append({"op": k})
+    c["ops"] = ops
+    return c
+
+
+def _p2_check_views(obj, model, case, tag, bk):
+    pre = f"parafac2_history/{{}}/{tag}@{bk}"
+    w_m, (A, B, C), projs = model
+    R, K = case["R"], case["K"]
+    dense_m = X.parafac2_padded(ref.parafac2_slices(w_m, A, B, C, projs), K)
+    scale = max(R * R * X.amax(w_m) * X.amax(A) * X.amax(B) * X.amax(C), 1e-300)
+    w_a = as_array(obj.weights, pre.format("state"))
+    f_a = [as_array(f, pre.format("state")) for f in obj.factors]
+    p_a = [as_array(p, pre.format("state")) for p in obj.projections]
+    check(w_a.shape == (R,) and [f.shape for f in f_a] == [A.shape, B.shape, C.shape]
+          and [p.shape for p in p_a] == [p.shape for p in projs], pre.format("state"),
+          lambda: f"weights {w_a.shape} factors {[f.shape for f in f_a]} projections {[p.shape for p in p_a]}")
+    slices = ref.parafac2_slices(w_a, f_a[0], f_a[1], f_a[2], p_a)
+    dense = X.parafac2_padded(slices, K)
+    close(dense, dense_m, pre.format("state"), rel=1e-9, scale=scale)
+    shape = tuple((J, K) for J in case["Js"])
+    check(tuple(tuple(s) for s in obj.shape) == shape, pre.format("shape"), lambda: f"{obj.shape} != {shape}")
+    check(obj.rank == R, pre.format("rank"), lambda: f"{obj.rank} != {R}")
+    close(obj.to_tensor(), dense, pre.format("to_tensor"), rel=REL, scale=scale)
+    close(obj.to_vec(), dense.reshape(-1), pre.format("to_vec"), rel=REL, scale=scale)
+    for m in range(3):
+        close(obj.to_unfolded(m), ref.unfold_fast(dense, m), pre.format("to_unfolded"), rel=REL, scale=scale)
+    got = P2.parafac2_to_slices(obj)
+    check(len(got) == len(slices), pre.format("slices"))
+    for g, sl in zip(got, slices):
+        close(g, sl, pre.format("slices"), rel=REL, scale=scale)
+    close(as_array(obj.norm(), pre.format("norm()")), np.asarray(np.sqrt(np.sum(dense ** 2))), pre.format("norm()"), rel=1e-9,
+          scale=scale * np.sqrt(dense.size))
+
+
+def o_p2_hist(case):
+    for bk in _order(case):
+        with tenalg_backend(bk):
+            w, A, B, C, projs = _p2_parts(case)
+            R = case["R"]
+            model = [np.ones(R) if w is None else w.copy(), [A.copy(), B.copy(), C.copy()], [p.copy() for p in projs]]
+            obj = Parafac2Tensor((w, [A, B, C], projs))
+            _p2_check_views(obj, model, case, "init", bk)
+            for op in case["ops"]:
+                k = op["op"]
+                if k == "norm":
+                    obj.norm()
+                elif k == "to_tensor":
+                    obj.to_tensor()
+                elif k == "to_vec":
+                    obj.to_vec()
+                elif k == "to_unfolded":
+                    obj.to_unfolded(op["mode"])
+                elif k == "set_weights":
+                    a = gen.dec(op["a"])
+                    obj.weights = a
+                    model[0] = a.copy()
+                elif k == "set_factor":
+                    a = gen.dec(op["a"])
+                    obj.factors[op["k"]] = a
+                    model[1][op["k"]] = a.copy()
+                elif k == "set_projection":
+                    i = op["i"]
+                    a = gen.orthonormal(op["seed"], case["Js"][i], R)
+                    obj.projections[i] = a
+                    model[2][i] = a.copy()
+                _p2_check_views(obj, model, case, "after:" + k, bk)
+    return _hist_labels(case)
+
+
 # ----------------------------------------------------------------------------
 def subchecks(tier):
     S = SubCheck
@@ -844,5 +1365,14 @@ def subchecks(tier):
         S("parafac2/tensor_views", _p2_case(), o_p2_tensor, quick=250, thorough=2500),
         S("parafac2/wrapper", _p2_case(), o_p2_wrapper, quick=350, thorough=2500),
         S("parafac2/reject", _p2_bad_case(), o_p2_bad, quick=350, thorough=2500),
+    ]
+    # histories on wrapper objects (views must stay consistent after every operation of a sequence)
+    subs += [
+        S("cp/history", _cp_hist_case(), o_cp_hist, quick=250, thorough=2500),
+        S("tucker/history", _tucker_hist_case(), o_tucker_hist, quick=250, thorough=2500),
+        S("tt/history", _chain_hist_case("tt"), o_chain_hist, quick=150, thorough=1500),
+        S("tr/history", _chain_hist_case("tr"), o_chain_hist, quick=150, thorough=1500),
+        S("ttm/history", _chain_hist_case("ttm"), o_chain_hist, quick=150, thorough=1500),
+        S("parafac2/history", _p2_hist_case(), o_p2_hist, quick=150, thorough=1500),
     ]
     return subs
